@@ -771,6 +771,25 @@ namespace ip {
 
 		int remote = m_channel->remote_idx(m_bound_to);
 		p.hops = m_channel->hops[remote];
+
+		// the segment is no longer in flight. It is counted again when it is
+		// re-sent
+		auto const it = m_outstanding_packet_sizes.find(p.seq_nr);
+		if (it != m_outstanding_packet_sizes.end())
+		{
+			m_bytes_in_flight -= it->second;
+			m_outstanding_packet_sizes.erase(it);
+		}
+
+		// the hop that dropped the packet consumed its drop handler. The
+		// retransmission may be dropped too
+		std::shared_ptr<aux::sink_forwarder> fwd = m_forwarder;
+		p.drop_fun = [fwd](aux::packet pkt)
+		{
+			auto* s = static_cast<tcp::socket*>(fwd->destination());
+			if (s) s->packet_dropped(std::move(pkt));
+		};
+
 		m_outgoing_packets.push_back(std::move(p));
 
 		const int packets_in_cwnd = m_cwnd / m_mss;
